@@ -412,7 +412,9 @@ def readEscape (ch : Bytes) (s : SS) : SS × Bytes :=
     else if isDigit c then
       let n := digitsFrom ch s.i
       ({ s with i := s.i + n }, 92 :: (ch.drop s.i).take n)
-    else adv [c]
+    -- Go: `string(oneChar)` with oneChar a byte is the UTF-8 text of the code point of that VALUE: a byte above
+    -- 0x7F behind a backslash becomes two bytes in the token text
+    else adv (if c >= 128 then [(0xC0 : UInt8) ||| (c >>> 6), (0x80 : UInt8) ||| (c &&& 0x3F)] else [c])
 
 /-- how the loop of `scanShortString` ends -/
 inductive SSRes where
